@@ -40,10 +40,17 @@ impl World {
         // ids are paths exactly as a caller may spell them: plain, through `sub/..`, through `./`
         let _ = std::fs::create_dir_all(dir.join("sub"));
         let ids = (0..n_ids)
-            .map(|i| match i % 3 {
+            .map(|i| match i % 4 {
                 0 => dir.join("sub").join("..").join(format!("f{i}.aidl")),
                 1 => dir.join(format!("f{i}.aidl")),
-                _ => dir.join(".").join(format!("f{i}.aidl")),
+                2 => dir.join(".").join(format!("f{i}.aidl")),
+                _ => {
+                    // a file name that is not UTF-8 (legal on Unix)
+                    use std::os::unix::ffi::OsStrExt;
+                    let mut name: Vec<u8> = vec![b'c', b'a', b'f', 0xE9];
+                    name.extend_from_slice(format!("{i}.aidl").as_bytes());
+                    dir.join(std::ffi::OsStr::from_bytes(&name))
+                }
             })
             .collect();
         World { dir, ids, contents }
@@ -318,7 +325,7 @@ pub fn run_c12(ctx: &Ctx) -> i32 {
     // (c) random long histories over generated projects
     let n_rand = ctx.tier.pick(400u64, 15_000);
     stats.merge(par_cases(ctx, "random_histories", n_rand, Duration::from_secs(ctx.tier.pick(60, 1500)), |i, rng, st| {
-        let cfg = ProjCfg { allow_collisions: false, allow_ambiguous: false, max_members: 3, max_type_depth: 2, ..ProjCfg::default() };
+        let cfg = ProjCfg { allow_collisions: false, allow_ambiguous: false, max_members: 3, max_type_depth: 2, max_files: 5, ..ProjCfg::default() };
         let pr = proj::project(rng, &cfg);
         // contents: per id a few versions that keep the key (body regenerated), plus garbage
         let n_ids = pr.files.len();
@@ -379,6 +386,30 @@ pub fn run_c12(ctx: &Ctx) -> i32 {
             Err(p) => st.violate("random_histories", i, "panic", format!("library panicked: {p}"), json!({"ops": format!("{ops:?}"), "contents": w.contents})),
         }
         w.cleanup();
+    }));
+    // (d) a file whose reported size is not what a read delivers (procfs reports 0): loading it must equal adding its text
+    stats.merge(par_cases(ctx, "procfs_file", 4, Duration::from_secs(30), |i, _rng, st| {
+        let path = PathBuf::from(["/proc/self/comm", "/proc/version", "/proc/self/comm", "/proc/sys/kernel/ostype"][i as usize]);
+        let Ok(text) = std::fs::read_to_string(&path) else {
+            st.inc("procfs.unreadable(skipped)");
+            return;
+        };
+        st.case(hash_str(&format!("{path:?}")), true);
+        st.inc("op.add_file_procfs");
+        let r = crate::runner::lib(|| {
+            let mut p: Parser<PathBuf> = Parser::new();
+            let loaded = p.add_file(&path).is_ok();
+            let got = p.validate();
+            let mut q: Parser<PathBuf> = Parser::new();
+            q.add_content(path.clone(), &text);
+            (loaded, compare_maps(&got, &q.validate()))
+        });
+        match r {
+            Ok((true, None)) => {}
+            Ok((false, _)) => st.violate("procfs_file", i, "history-dependence", format!("add_file on the readable UTF-8 file {path:?} failed"), json!({"path": format!("{path:?}")})),
+            Ok((true, Some(d))) => st.violate("procfs_file", i, "history-dependence", format!("add_file({path:?}) is not equivalent to add_content(path, text): {d}"), json!({"path": format!("{path:?}"), "text": text})),
+            Err(p) => st.violate("procfs_file", i, "panic", format!("library panicked: {p}"), json!({"path": format!("{path:?}")})),
+        }
     }));
     // remove the per-thread scratch directories of the exhaustive stages
     if let Ok(rd) = std::fs::read_dir(format!("{}/work", out_dir())) {
